@@ -204,10 +204,11 @@ def run_c06(ctx):
 
     def do_sow(r):
         d = st[r]
-        if r == 1 and not interleaved and role == "harvester" and kind != "bool" \
+        if r == 1 and not interleaved and role == "harvester" and kind not in ("bool", "holes") \
                 and t.flag(1, 3, "second-crop-conflicts"):
             # same coordinates as the first crop but a new 'version' of the function:
-            # every point conflicts (bool results of two versions can coincide)
+            # every point conflicts (bool results of two versions can coincide, and so
+            # can results that are nan at some settings)
             d["g"] = 0
             d["v"] = 1
             d["conflict"] = policy is None
